@@ -219,6 +219,12 @@ func (v *VMValue) UnmarshalJSON(input []byte) error {
 		}
 		err := json.Unmarshal(input, &v1)
 		if err == nil {
+			// a JSON null element must not become a nil *VMValue inside the list
+			for i, item := range v1.Value.List {
+				if item == nil {
+					v1.Value.List[i] = NewNullVal()
+				}
+			}
 			v.Value = NewArrayValRaw(v1.Value.List).Value
 		}
 		return err
